@@ -52,7 +52,11 @@ def gen_case(rnd, points):
     if rnd.random() < 0.06 and not kinds:
         # a fault that exists only under a multi-byte output charset: a tape name of <= 16 characters but > 16 bytes
         case["charset_fault"] = rnd.choice(["ЖЖЖЖЖЖЖЖЖЖ", "Привет, мир!", "ёжик ёжик ёж", "€€€€€€"])
-    if rnd.random() < 0.12:
+    if rnd.random() < 0.05 and not kinds and not case.get("charset_fault"):
+        # an image that a 'bin' container cannot describe (> 65535 bytes): the make_bin target must fail the build without being
+        # created, emptied or otherwise touched
+        case["big_image"] = True
+    if rnd.random() < 0.12 and not case.get("big_image"):
         # the same identifier first as a (possibly hidden) warning, later as an error
         case["dual"] = rnd.choice(sorted(DUALS))
         case["dual_order"] = rnd.choice(["warning-first", "warning-first", "error-first", "error-only"])
@@ -117,6 +121,8 @@ def run_case(case, cnt=None, root=None, idset=None):
             clicase.plant(host, rnd, f, where=rnd.choice(names))
         for k in case["warnings"]:
             clicase.plant(host, rnd, faults.render_warning(k, "\t"), where=rnd.choice(host["linked"]))
+        if case.get("big_image"):
+            clicase.append_last(host, ["\t.blkb 100000", "\t.blkb 100000", f'\t{rnd.choice(["make_bin", "make_wav", "make_bk0010_rom"])} "big7.bin"'], host["linked"][0])
         if case.get("charset_fault"):
             clicase.append_last(host, [f'\tmake_wav "cf9.wav", "{case["charset_fault"]}"'], host["linked"][0])
         if case.get("dual"):
@@ -160,6 +166,8 @@ def run_case(case, cnt=None, root=None, idset=None):
                 expected_outputs.append("both.bin")
             if sel.startswith("make-bad-dir"):
                 main.append("make_raw \"nodir/bad.raw\"")
+        if case.get("big_image"):
+            expected_outputs.append("big7.bin")
         lst = None
         if sel.endswith("+lst"):
             argv_sel.append("--lst")
@@ -206,8 +214,8 @@ def run_case(case, cnt=None, root=None, idset=None):
             if r["internal_error"]:
                 viol(f"{label}: internal compiler error banner; stderr tail {r['stderr'][-300:]!r}")
                 continue
-            if (case["faults"] or case.get("dual") or case.get("charset_fault")) and r["exit"] == 0:
-                viol(f"{label}: a program with planted faults {case['faults'] or case.get('dual') or 'tape name longer than 16 bytes in utf-8'} assembled successfully "
+            if (case["faults"] or case.get("dual") or case.get("charset_fault") or case.get("big_image")) and r["exit"] == 0:
+                viol(f"{label}: a program with planted faults {case['faults'] or case.get('dual') or ('image too large for its container' if case.get('big_image') else 'tape name longer than 16 bytes in utf-8')} assembled successfully "
                      f"(exit 0, {nerr} error diagnostics): each catalogue fault is an error")
             if (nerr > 0) != (r["exit"] != 0):
                 viol(f"{label}: {nerr} error diagnostics {[e[1] for e in r['events'] if e[0] != 'warning'][:4]} but exit status {r['exit']}")
@@ -220,11 +228,12 @@ def run_case(case, cnt=None, root=None, idset=None):
             if r["exit"] != 0:
                 cnt["failed_runs_checked_for_no_output"] += 1
                 writes = [o for o in r["opens"] if not o[0].startswith("fd")]
-                emit_io = sel.startswith("make-bad-dir") and any(e[1] == "io-error" for e in r["events"])
+                emit_io = (sel.startswith("make-bad-dir") and any(e[1] == "io-error" for e in r["events"])) or \
+                          (bool(case.get("big_image")) and all(e[1] in ("value-out-of-bounds", "io-error") for e in r["events"] if e[0] != "warning"))
                 if changed or writes:
                     only_make = set(changed) <= {"mk.bin", "out/mk.raw", "mk.wav"} and all(os.path.basename(w[0]) in ("mk.bin", "mk.raw", "mk.wav", "bad.raw") for w in writes)
                     compile_errors = [e for e in r["events"] if e[0] != "warning" and not (e[1] == "io-error" and "bad" in (e[4] or "") or e[1] == "io-error")]
-                    if emit_io and only_make and not [e for e in r["events"] if e[0] != "warning" and e[1] != "io-error"]:
+                    if emit_io and only_make and not [e for e in r["events"] if e[0] != "warning" and e[1] != "io-error" and not (case.get("big_image") and e[1] == "value-out-of-bounds")]:
                         viol(f"{label}: failed run (emit-time io-error on one make_* target) still wrote {changed}", "partial-emit")
                     else:
                         viol(f"{label}: failed run (exit {r['exit']}) created/modified {changed}, write-opens {writes[:4]}")
